@@ -2,6 +2,7 @@ import Dia.Dump
 import Dia.Exec
 import Dia.Server
 import Dia.Fixed
+import Dia.ClientPolite
 /-! Line-protocol interpreter (DESIGN.md Appendix A): one operation per input line, one answer line
 `<impl> | <spec> | <reason>` per operation. Imports model files only (no Mathlib), so it links as an executable. -/
 open Dia
@@ -90,6 +91,7 @@ def parseREvs (s : String) : Option (List REv) :=
   if s = "-" then some [] else
   (s.splitOn ",").mapM fun t =>
     if t = "p" then some .pending else if t = "e" then some .eof else if t = "f" then some .fail
+    else if t.startsWith "t:" then some .pending      -- a pause in (virtual) time: nothing arrives
     else if t.startsWith "d:" then (unhex? (t.drop 2).toString).map .data else none
 
 /-- `a<k>` accept at most k octets, `p` pending, `f` fail -/
@@ -108,6 +110,109 @@ def sdecLoop (cfg : Cfg) (dict : Lookup) : Nat → List REv → List String → 
     | .err _ => (("err@" ++ toString r.consumed) :: acc).reverse
     | .panic => (("panic@" ++ toString r.consumed) :: acc).reverse
 
+def bit (b : Bool) : String := if b then "1" else "0"
+
+/-! ### replay of an observed client trace through the transition system (C11, C12) -/
+
+structure RState where
+  s : Cl.St := Cl.init
+  hist : Cl.Hist := {}
+  polite : Bool := true
+  answers : List (Nat × Nat) := []      -- the peer's messages still to come, in stream order: (hop-by-hop, uid)
+  labels : Nat := 0
+
+def politeB (s : Cl.St) (hs : Cl.Hist) : Cl.Label → Bool
+  | .sendBegin h => !hs.usedIds.contains h
+  | .peerEmit (.msg m) => s.started.contains m.hbh && !hs.answered.contains m.hbh
+  | .peerEmit .bad => false
+  | _ => true
+
+def RState.apply (r : RState) (l : Cl.Label) (what : String) : Except String RState :=
+  match Cl.step r.s l with
+  | some s' =>
+    -- the stop of the reader is replayed as a `bad` item; it does not count against the politeness of what came before
+    let p := match l with | .peerEmit .bad => true | _ => politeB r.s r.hist l
+    .ok { r with s := s', hist := r.hist.step l, polite := r.polite && p, labels := r.labels + 1 }
+  | none => .error ("step not enabled in the model: " ++ what)
+
+def readerTag : Cl.Reader → String
+  | .running => "running" | .decoded _ => "decoded" | .removed _ _ => "removed" | .stopping => "stopping"
+  | .stopped => "stopped"
+
+def replayEvent (r : RState) (ev : String) : Except String RState :=
+  match ev.splitOn ":" with
+  | ["sb", _] => .ok r
+  | ["rd", _] => .ok r
+  | ["reg", h] =>
+    match h.toNat? with
+    | some h =>
+      if r.s.closed then .error "registered a waiter although the connection is closed" else r.apply (.sendBegin h) ev
+    | none => .error "bad event"
+  | ["refused", h] =>
+    match h.toNat? with
+    | some h => if r.s.closed then r.apply (.sendBegin h) ev else .error "send refused although the connection is open"
+    | none => .error "bad event"
+  | ["wr", _] => r.apply .write ev
+  | ["ret", _, "ok"] => r.apply .sendReturn ev
+  | ["ret", _, "err"] => if r.s.send = .idle then .ok r else r.apply .sendFail ev
+  | ["rm", h, found] =>
+    match h.toNat?, r.answers with
+    | some h, (ah, uid) :: rest =>
+      if ah ≠ h then .error ("the reader decoded id " ++ toString h ++ " but the peer's next message has id " ++ toString ah) else
+      let cached := (r.s.cache h).isSome
+      if cached ≠ (found == "1") then .error ("table lookup for id " ++ toString h ++ " found=" ++ found ++
+        " but the model's table says " ++ toString cached) else
+      match ({ r with answers := rest }).apply (.peerEmit (.msg ⟨h, uid⟩)) ev with
+      | .error e => .error e
+      | .ok r1 =>
+        match r1.apply .readerDecode ev with
+        | .error e => .error e
+        | .ok r2 => r2.apply .readerRemove ev
+    | _, _ => .error "the reader decoded a message the peer did not send"
+  | ["dl", _, "1"] => r.apply .readerDeliver ev
+  | ["dl", _, "0"] => .error "delivery to a future that was already dropped (outside the model's quantifier)"
+  | ["stop"] =>
+    match r.s.reader with
+    | .stopping => r.apply .readerStop ev
+    | .running =>
+      match r.apply (.peerEmit .bad) ev with
+      | .error e => .error e
+      | .ok r1 =>
+        match r1.apply .readerDecode ev with
+        | .error e => .error e
+        | .ok r2 => r2.apply .readerStop ev
+    | st => .error ("reader stopped while the model's reader is " ++ readerTag st)
+  | _ => .error ("unknown event " ++ ev)
+
+def replayAll : List String → Nat → RState → Except (Nat × String) RState
+  | [], _, r => .ok r
+  | ev :: rest, k, r =>
+    match replayEvent r ev with
+    | .ok r' => replayAll rest (k+1) r'
+    | .error e => .error (k, e)
+
+def statusOf (s : Cl.St) (w : Nat) : String :=
+  match s.status w with
+  | .pending => "pending"
+  | .got m => "got:" ++ toString m.hbh ++ ":" ++ toString m.uid
+  | .dropped => "err"
+
+def ctraceLine (evs answers : String) : String :=
+  let ans : List (Nat × Nat) :=
+    if answers = "-" then [] else
+    (answers.splitOn ",").filterMap fun t =>
+      match t.splitOn ":" with
+      | [h, u] => match h.toNat?, u.toNat? with | some h, some u => some (h, u) | _, _ => none
+      | _ => none
+  let events := if evs = "-" then [] else evs.splitOn ","
+  match replayAll events 0 { answers := ans } with
+  | .error (k, e) => "reject@" ++ toString k ++ " " ++ e
+  | .ok r =>
+    let res := (List.range r.s.nW).map (statusOf r.s)
+    "accept " ++ (if res.isEmpty then "-" else String.intercalate "," res) ++ " | labels=" ++ toString r.labels ++
+      " polite=" ++ bit r.polite ++ " reader=" ++ readerTag r.s.reader ++ " closed=" ++ bit r.s.closed ++
+      " wire=" ++ toString r.s.wire.length ++ " | -"
+
 def statusStr : Status → String
   | .ok => "ok" | .err => "err" | .bad => "bad"
 
@@ -116,7 +221,6 @@ def errName : Err → String
   | .deep => "deep" | .utf8 => "utf8" | .addr => "addr" | .cmd => "cmd" | .app => "app" | .timeRange => "timeRange"
   | .tooLong => "tooLong"
 
-def bit (b : Bool) : String := if b then "1" else "0"
 
 def encStr (e : Enc) : String :=
   match e.err with
@@ -263,6 +367,7 @@ def step (s : DState) (line : String) : DState × String :=
     match unhex? h with
     | some bs => (s, decLine s.cfg s.ms.dict bs)
     | none => plain s "bad-op"
+  | ["ctrace", evs, answers] => (s, ctraceLine evs answers)
   | ["msave"] => plain { s with saved := s.saved.push s.ms.msg, ms := { s.ms with msg := Msg.new 272 4 0 0 0 } } "ok"
   | ["mclear"] => plain { s with saved := #[] } "ok"
   | ["sdec", n, evs] =>
